@@ -219,6 +219,19 @@ def check(run):
                         continue
                     for pl in places:
                         pcases.append((op, a, b, pl, '(%s) %s (%s)' % (ra, tf.OPS[op], rb), '(%s) %s (%s)' % (rb, tf.OPS[op], ra)))
+    # operands that contain a dynamic construct (spawn), directly and nested: where such constructs are not allowed the refusal must not depend on the operand order
+    XTD = ('int i, j; bool b, bq; double d; clock x;\ndynamic DT();\nprocess DT() { state S0; init S0; }\n%(glob)s\nprocess P() { state A, B; init A; trans A -> B { guard %(guard)s; assign %(assign)s; }; }\nsystem P;\n')
+    places['function-body'] = lambda e: (XTD % dict(glob='void fb() { i = (%s) ? 1 : 0; }' % e if ('==' in e or '!=' in e or '&&' in e or '||' in e) else 'void fb() { i = %s; }' % e, guard='true', assign='bq = true'), None)
+    places['dyn-update'] = lambda e: (XTD % dict(glob='', guard='true', assign='i = ((%s) ? 1 : 0)' % e if ('==' in e or '!=' in e or '&&' in e or '||' in e) else 'i = %s' % e), None)
+    places['dyn-guard'] = lambda e: (XTD % dict(glob='', guard='(%s) == 1' % e if not ('==' in e or '!=' in e or '&&' in e or '||' in e) else e, assign='bq = true'), None)
+    for op in COMM:
+        for dyn in ('spawn DT()', '(spawn DT() + 1)', '((spawn DT() + 1) * 2)'):
+            for other in ('i', '(j + 1)'):
+                for pl in ('function-body', 'dyn-update', 'dyn-guard'):
+                    pcases.append((op, 'CDyn', 'CInt', pl, '%s %s %s' % (dyn, tf.OPS[op], other), '%s %s %s' % (other, tf.OPS[op], dyn)))
+    for dyn in ('spawn DT()', '(spawn DT() + 1)'):
+        for pl in ('function-body', 'dyn-update'):
+            pcases.append(('INLINE_IF', 'CDyn', 'CInt', pl, 'b ? %s : i' % dyn, '!b ? i : %s' % dyn))
     j = vlib.Job()
     for k, (op, a, b, pl, e1, e2) in enumerate(pcases):
         for o, e in enumerate((e1, e2)):
